@@ -4,10 +4,20 @@ package main
 // uint64.  Events have the same shape and are validated by the same RoaringSet/TraceSet modules.
 
 import (
+	"bufio"
 	"bytes"
+	"context"
 	"encoding/base64"
+	"encoding/binary"
+	"flag"
+	"fmt"
 	"math/rand"
+	"os"
+	"os/exec"
 	"sort"
+	"strings"
+	"syscall"
+	"time"
 
 	"github.com/RoaringBitmap/roaring/v2"
 	"github.com/RoaringBitmap/roaring/v2/roaring64"
@@ -632,4 +642,205 @@ func randUniverse64(r *rand.Rand, maxAtoms int) (*Universe, []iset) {
 		u.Name = "venn64"
 		return u, gens
 	}
+}
+
+// ---------------------------------------------------------------- untrusted 64-bit streams (C18)
+// Each decode of a damaged stream runs in a CHILD process with an address-space limit: an attacker-sized
+// allocation must surface as an error of the decoder, not as the death of the process that called it (and
+// certainly not of the checker).
+
+func dec64Child(args []string) {
+	// args: entry file
+	var lim syscall.Rlimit
+	lim.Cur, lim.Max = 6<<30, 6<<30
+	syscall.Setrlimit(syscall.RLIMIT_AS, &lim)
+	data, err := os.ReadFile(args[1])
+	if err != nil {
+		fmt.Println("harness-error")
+		return
+	}
+	out := "ok"
+	func() {
+		defer func() {
+			if r := recover(); r != nil {
+				out = fmt.Sprintf("panic: %v", r)
+			}
+		}()
+		rb := roaring64.New()
+		var derr error
+		switch args[0] {
+		case "0":
+			_, derr = rb.ReadFrom(bytes.NewReader(data))
+		case "1":
+			_, derr = rb.FromUnsafeBytes(data)
+		case "2":
+			derr = rb.UnmarshalBinary(data)
+		default:
+			_, derr = rb.FromBase64(base64.StdEncoding.EncodeToString(data))
+		}
+		if derr != nil {
+			out = "err"
+		}
+	}()
+	fmt.Println(out)
+}
+
+var kinds64 = []string{"trunc", "count-0", "count+1", "count-1", "count-2^31", "count-2^40", "count-2^63", "count-max", "key-unsorted", "key-dup", "inner-cookie", "inner-count", "byteflip", "random"}
+
+func corrupt64(b []byte, kind string, r *rand.Rand) ([]byte, bool, bool) {
+	out := append([]byte(nil), b...)
+	if len(b) < 8 {
+		return nil, false, false
+	}
+	n := binary.LittleEndian.Uint64(b)
+	switch kind {
+	case "trunc":
+		cuts := []int{0, 1, 7, 8, 9, 11, 12, 13, len(b) - 1, len(b) / 2, r.Intn(len(b))}
+		c := cuts[r.Intn(len(cuts))]
+		if c >= len(b) {
+			c = len(b) - 1
+		}
+		return out[:c], true, true
+	case "count-0":
+		binary.LittleEndian.PutUint64(out, 0)
+	case "count+1":
+		binary.LittleEndian.PutUint64(out, n+1)
+	case "count-1":
+		if n == 0 {
+			return nil, false, false
+		}
+		binary.LittleEndian.PutUint64(out, n-1)
+	case "count-2^31":
+		binary.LittleEndian.PutUint64(out, 1<<31)
+	case "count-2^40":
+		binary.LittleEndian.PutUint64(out, 1<<40)
+	case "count-2^63":
+		binary.LittleEndian.PutUint64(out, 1<<63)
+	case "count-max":
+		binary.LittleEndian.PutUint64(out, ^uint64(0))
+	case "key-unsorted", "key-dup", "inner-cookie", "inner-count":
+		if n == 0 || len(b) < 16 {
+			return nil, false, false
+		}
+		switch kind {
+		case "key-unsorted":
+			binary.LittleEndian.PutUint32(out[8:], 0xFFFFFFFF)
+		case "key-dup":
+			// second key position is unknown without parsing the inner stream; reuse the first key for a later 4 bytes only when it parses
+			pf, _ := parsePortable(b[12:])
+			if !pf.OK || 12+pf.End+4 > len(b) {
+				return nil, false, false
+			}
+			copy(out[12+pf.End:], b[8:12])
+		case "inner-cookie":
+			binary.LittleEndian.PutUint32(out[12:], pick(r, []uint32{0, 12345, 0xFFFFFFFF, uint32(r.Uint32())}))
+		case "inner-count":
+			binary.LittleEndian.PutUint32(out[16:], pick(r, []uint32{0, 65537, 0xFFFFFFFF, 1 << 31}))
+		}
+	case "byteflip":
+		for k, m := 0, 1+r.Intn(4); k < m; k++ {
+			lim := len(out)
+			if r.Intn(2) == 0 && lim > 24 {
+				lim = 24
+			}
+			out[r.Intn(lim)] ^= byte(1 << uint(r.Intn(8)))
+		}
+	default:
+		out = make([]byte, r.Intn(48))
+		r.Read(out)
+	}
+	return out, false, true
+}
+
+func cmdFuzzDec64(args []string) {
+	fs := flag.NewFlagSet("fuzzdec64", flag.ExitOnError)
+	seed := fs.Int64("seed", 1, "seed")
+	traces := fs.Int("traces", 50, "number of inputs")
+	out := fs.String("out", "", "ndjson output")
+	cover := fs.String("cover", "", "coverage json")
+	first := fs.Int("first", 1, "first trace id")
+	only := fs.Int("only", 0, "only this trace id")
+	fs.String("profile", "", "ignored")
+	fs.Int("steps", 0, "ignored")
+	fs.Int("bits", 64, "ignored")
+	fs.Parse(args)
+	f, err := os.Create(*out)
+	if err != nil {
+		panic(err)
+	}
+	w := bufio.NewWriterSize(f, 1<<20)
+	cv := coverOut{Ops: map[string]int{}, Kinds: map[string]int{}}
+	self, _ := os.Executable()
+	tmp, _ := os.MkdirTemp("", "dec64")
+	defer os.RemoveAll(tmp)
+	for t := 0; t < *traces; t++ {
+		id := *first + t
+		if *only != 0 && id != *only {
+			continue
+		}
+		r := rand.New(rand.NewSource(*seed*15485863 + int64(id)))
+		src := roaring64.New()
+		for i, n := 0, r.Intn(4); i < n; i++ {
+			b := uint64(pick(r, []uint64{0, 1, 0x7FFFFFFF, 0xFFFFFFFF, uint64(r.Uint32())}))
+			for _, sp := range randGen32(r, randKeys(r, 1+r.Intn(3))) {
+				if sp.hi-sp.lo < 100000 {
+					src.AddRange(b<<32+sp.lo, b<<32+sp.hi+1)
+				}
+			}
+		}
+		if r.Intn(2) == 0 {
+			src.RunOptimize()
+		}
+		valid, _ := src.ToBytes()
+		kind := pick(r, kinds64)
+		data, prefix, ok := corrupt64(valid, kind, r)
+		if !ok {
+			data, kind, prefix = valid, "none", false
+		}
+		cv.Kinds[kind]++
+		u, _ := vennUniverse(64, nil, nil)
+		u.computeShifts(nil)
+		u.Name = "fuzzdec64/" + kind
+		e := newExec(u, w, id, r.Int63())
+		e.begin()
+		path := fmt.Sprintf("%s/in-%d.bin", tmp, id)
+		os.WriteFile(path, data, 0o644)
+		for entry := 0; entry < 4; entry++ {
+			ctx, cancel := context.WithTimeout(context.Background(), 30*time.Second)
+			cmd := exec.CommandContext(ctx, self, "dec64", fmt.Sprint(entry), path)
+			var so, se bytes.Buffer
+			cmd.Stdout, cmd.Stderr = &so, &se
+			rerr := cmd.Run()
+			timedOut := ctx.Err() == context.DeadlineExceeded
+			cancel()
+			outcome := strings.TrimSpace(so.String())
+			msg := ""
+			switch {
+			case timedOut:
+				outcome = "hang"
+			case rerr != nil:
+				outcome = "crash"
+				msg = se.String()
+				if i := strings.Index(msg, "\n"); i > 0 {
+					msg = msg[:i]
+				}
+			case strings.HasPrefix(outcome, "panic"):
+				msg, outcome = outcome, "panic"
+			}
+			if len(msg) > 160 {
+				msg = msg[:160]
+			}
+			ev := e.rawEvent(Call{Op: "Decode", V: entry, Rcp: kind})
+			ev.Ret = map[string]any{"outcome": outcome, "msg": msg, "valid": false, "prefix": prefix && false, "entry": []string{"ReadFrom", "FromUnsafeBytes", "UnmarshalBinary", "FromBase64"}[entry]}
+			e.emit(ev)
+			e.events++
+			cv.Ops["Decode"]++
+		}
+		os.Remove(path)
+		cv.Traces++
+		cv.Events += e.events
+	}
+	w.Flush()
+	f.Close()
+	writeCover(*cover, cv)
 }
